@@ -4,6 +4,7 @@ package main
 // One Exec = one verification unit (one function under contract).
 
 import (
+	"go/ast"
 	"os"
 	"fmt"
 	"go/constant"
@@ -75,6 +76,9 @@ type Exec struct {
 	contains    map[string]map[string]bool // local container -> local objects stored in it
 	escaped     map[string]bool // by ref term: handed to a call that is not followed
 	curArgs     []Val
+	inAtoiAxioms bool
+	staleLoop   map[int]bool // loops whose declared clauses do not evaluate on the current code
+	atoiAxiom   map[string]bool
 	specDepth   int
 	wantResult  int // nth(k, call): result index wanted from the next spec-level call
 	nReq        int
@@ -632,9 +636,24 @@ func (x *Exec) loopHeader(fr *frame, h *ssa.BasicBlock, ordinal int, st *State, 
 		}
 		return m
 	}
+	// A loop clause that no longer evaluates (it names a local variable the code no
+	// longer has, ...) disables the loop's clauses: the loop is cut without an
+	// invariant, and what then fails are the obligations that relied on it.
+	if len(invs) > 0 {
+		if msg := x.loopClausesEvaluate(fr, h, ordinal, st, reach, phiEnv()); msg != "" {
+			x.c.Note("loop %d of %s: declared loop clauses do not apply to the current code (%s); the loop is cut without an invariant", ordinal, fr.fn.String(), msg)
+			fmt.Fprintf(os.Stderr, "STALE-LOOP %s loop %d: %s\n", x.fname(), ordinal, msg)
+			if x.staleLoop == nil {
+				x.staleLoop = map[int]bool{}
+			}
+			x.staleLoop[ordinal] = true
+			invs = nil
+		}
+	}
 	// entry obligations
 	for i, inv := range invs {
 		env := fr.env.with(st, phiEnv())
+		env.local = x.localNamer(fr, h, st, reach)
 		g := x.evalBool(inv.Expr, env, reach)
 		name := fmt.Sprintf("%s#loop%d.entry[%s]", x.fname(), ordinal, clauseLabel(inv, i))
 		x.addObl(name, "loop", inv.Text, clauseProps(inv, x.ct), OblPart{NegGoal: And(reach, Not(g)), NAssume: len(x.c.Assumes), Where: "loop entry"}, false)
@@ -672,8 +691,39 @@ func (x *Exec) loopHeader(fr *frame, h *ssa.BasicBlock, ordinal int, st *State, 
 	}
 	for _, inv := range invs {
 		env := fr.env.with(st, phiEnv())
+		env.local = x.localNamer(fr, h, st, reach)
 		g := x.evalBool(inv.Expr, env, reach)
 		x.c.Assume(Imp(reach, g))
+	}
+	if fr.top && x.ct != nil && !x.staleLoop[ordinal] {
+		// extra instances: an invariant proved for arbitrary values of the forall
+		// constants holds for every value, in particular for the given terms
+		for _, ic := range x.ct.LoopInst[ordinal] {
+			env := fr.env.with(st, phiEnv())
+			env.local = x.localNamer(fr, h, st, reach)
+			old, ok := env.names[ic.Label]
+			if !ok {
+				specFail("loop %d instance: unknown forall constant %q", ordinal, ic.Label)
+			}
+			v := x.materialize(x.evalSpec(ic.Expr, env, reach), old.T)
+			m := phiEnv()
+			m[ic.Label] = v
+			env2 := fr.env.with(st, m)
+			env2.local = env.local
+			for _, inv := range invs {
+				g := x.evalBool(inv.Expr, env2, reach)
+				x.c.Assume(Imp(reach, g))
+			}
+		}
+		for _, cl := range x.ct.LoopSets[ordinal] {
+			env := fr.env.with(st, phiEnv())
+			env.local = x.localNamer(fr, h, st, reach)
+			gv, ok := st.ghost[cl.Label]
+			if !ok {
+				specFail("loop sets: unknown ghost %q", cl.Label)
+			}
+			st.ghost[cl.Label] = x.materialize(x.evalSpec(cl.Expr, env, reach), gv.T)
+		}
 	}
 	if len(invs) == 0 {
 		x.c.Note("loop %d of %s cut without a declared invariant (all state modified by the body is havocked)", ordinal, fr.fn.String())
@@ -693,7 +743,7 @@ func (x *Exec) backEdgeObligations(fr *frame, p, h *ssa.BasicBlock, ec Term, st 
 		}
 	}
 	invs := x.ct.Loops[ordinal]
-	if len(invs) == 0 {
+	if len(invs) == 0 || x.staleLoop[ordinal] {
 		return
 	}
 	m := map[string]Val{}
@@ -714,6 +764,7 @@ func (x *Exec) backEdgeObligations(fr *frame, p, h *ssa.BasicBlock, ec Term, st 
 	}
 	for i, inv := range invs {
 		env := fr.env.with(st, m)
+		env.local = x.localNamer(fr, h, st, ec)
 		g := x.evalBool(inv.Expr, env, ec)
 		name := fmt.Sprintf("%s#loop%d.preserve[%s]", x.fname(), ordinal, clauseLabel(inv, i))
 		x.addObl(name, "loop", inv.Text, clauseProps(inv, x.ct), OblPart{NegGoal: And(ec, Not(g)), NAssume: len(x.c.Assumes), Where: "back edge"}, false)
@@ -1099,3 +1150,112 @@ func (x *Exec) havocEffectsK(st *State, eff *Effects, tag string, keepLocals boo
 }
 
 var _ = token.NoPos
+
+// localNamer resolves a source-level local variable name to the SSA value that
+// reaches the loop header h (packages built with debug references only): among
+// the values go/ssa recorded for the identifier, the one whose definition
+// dominates h and is dominated by every other such definition. Header phis are
+// not handled here (they are bound by name already).
+func (x *Exec) localNamer(fr *frame, h *ssa.BasicBlock, st *State, reach Term) func(string) (Val, bool) {
+	return func(name string) (Val, bool) {
+		var best ssa.Value
+		bestAddr := false
+		better := func(v ssa.Value) bool {
+			if best == nil {
+				return true
+			}
+			bi, _ := best.(ssa.Instruction)
+			vi, _ := v.(ssa.Instruction)
+			if bi == nil {
+				return true
+			}
+			if vi == nil {
+				return false
+			}
+			if bi.Block() == vi.Block() {
+				ib, iv := -1, -1
+				for k, ins := range bi.Block().Instrs {
+					if ins == bi {
+						ib = k
+					}
+					if ins == vi {
+						iv = k
+					}
+				}
+				return iv > ib
+			}
+			return bi.Block().Dominates(vi.Block())
+		}
+		for _, b := range fr.fn.Blocks {
+			for _, ins := range b.Instrs {
+				d, ok := ins.(*ssa.DebugRef)
+				if !ok {
+					continue
+				}
+				id, ok := d.Expr.(*ast.Ident)
+				if !ok || id.Name != name {
+					continue
+				}
+				v := d.X
+				if vi, isInstr := v.(ssa.Instruction); isInstr {
+					if vi.Block() == nil || !vi.Block().Dominates(h) {
+						continue
+					}
+					if phi, isPhi := v.(*ssa.Phi); isPhi && phi.Block() == h {
+						continue
+					}
+				}
+				if _, known := fr.vals[v]; !known {
+					if _, isConst := v.(*ssa.Const); !isConst {
+						if _, isParam := v.(*ssa.Parameter); !isParam {
+							continue
+						}
+					}
+				}
+				if better(v) {
+					best, bestAddr = v, d.IsAddr
+				}
+			}
+		}
+		if best == nil {
+			return Val{}, false
+		}
+		val := x.val(fr, best)
+		if bestAddr {
+			return x.load(st, x.toAddr(val), reach), true
+		}
+		return val, true
+	}
+}
+
+// loopClausesEvaluate: do all declared clauses of the loop make sense here?
+// (a dry evaluation; returns the first spec error)
+func (x *Exec) loopClausesEvaluate(fr *frame, h *ssa.BasicBlock, ordinal int, st *State, reach Term, phis map[string]Val) (msg string) {
+	defer func() {
+		if r := recover(); r != nil {
+			if se, ok := r.(specError); ok {
+				msg = se.msg
+				return
+			}
+			panic(r)
+		}
+	}()
+	env := fr.env.with(st.clone(), phis)
+	env.local = x.localNamer(fr, h, st, reach)
+	for _, inv := range x.ct.Loops[ordinal] {
+		x.evalBool(inv.Expr, env, reach)
+	}
+	for _, ic := range x.ct.LoopInst[ordinal] {
+		if _, ok := env.names[ic.Label]; !ok {
+			specFail("instance of unknown forall constant %q", ic.Label)
+		}
+		x.evalSpec(ic.Expr, env, reach)
+	}
+	for _, cl := range x.ct.LoopSets[ordinal] {
+		if _, ok := st.ghost[cl.Label]; !ok {
+			specFail("unknown ghost %q", cl.Label)
+		}
+		x.evalSpec(cl.Expr, env, reach)
+	}
+	return ""
+}
